@@ -43,7 +43,7 @@ m = {
     }],
     "checks": checks,
     "not_applicable": na,
-    "notes": "See DESIGN.md. Properties listed under not_applicable with reason 'check not built yet' are planned, not judged inapplicable.",
+    "notes": "See DESIGN.md. All 20 properties are claimed (not_applicable is empty); 19 at level proof, C07 at level other (process-level determinism is a fact about the runtime).",
 }
 json.dump(m, open(os.path.join(ROOT, "MANIFEST.json"), "w"), indent=1)
 print("wrote MANIFEST.json:", len(checks), "checks,", len(na), "unclaimed")
